@@ -133,6 +133,25 @@ def const_fold_widths():
 
 
 @design
+def arith_consts(w=3):
+    """word-level arithmetic / comparison with a constant operand on either side: 0, 1, powers of two, others,
+    constants narrower and wider than the other operand"""
+    a, = _io([w])
+    k = 0
+    for c, cw in ((0, 1), (0, w), (1, 1), (2, 2), (4, w + 2), (3, 2), (2 ** w - 1, w), (1, w + 2)):
+        _out(a * pyrtl.Const(c, bitwidth=cw), 'out%d' % k)
+        _out(pyrtl.Const(c, bitwidth=cw) * a, 'out%d' % (k + 1))
+        k += 2
+    for c, cw in ((0, 1), (0, w), (1, w), (2 ** w - 1, w)):
+        _out(a + pyrtl.Const(c, bitwidth=cw), 'out%d' % k)
+        _out(pyrtl.Const(c, bitwidth=cw) - a, 'out%d' % (k + 1))
+        _out(a - pyrtl.Const(c, bitwidth=cw), 'out%d' % (k + 2))
+        _out(a < pyrtl.Const(c, bitwidth=cw), 'out%d' % (k + 3))
+        _out(pyrtl.Const(c, bitwidth=cw) > a, 'out%d' % (k + 4))
+        k += 5
+
+
+@design
 def fold_in_place(w=1):
     """gates with one constant operand that constant propagation replaces one-for-one (same number of nets
     before and after): by a constant, by a plain wire, by an inverter"""
@@ -585,6 +604,8 @@ def family(tier='quick', seed=0):
     add('reg_chain')
     add('const_select')
     add('const_fold_widths')
+    add('arith_consts')
+    add('arith_consts', w=1)
     add('fold_in_place')
     add('fold_in_place', w=3)
     add('regs_same_next')
